@@ -195,4 +195,35 @@ theorem dispatchLegacy_ok (routes : List Route) (P : Params σ) (w : World σ) (
           cases h
           simp [hr]
 
+/-- The request fails before any handler body is entered: undecodable, `urlparse` raised, unknown
+    route, or refused by the handler's guard. -/
+def FailsEarly (routes : List Route) (P : Params σ) (w : World σ) (req : Option Req) (body : Bytes) : Prop :=
+  match resolve routes P req body with
+  | .error _ => True
+  | .ok (r, _) => (guardRefusal P r.guard w).isSome = true
+
+/-- Such a request changes nothing in the world and is answered by a response object built from
+    constants only (no deferred task, no session key, no advertisement refresh). -/
+theorem dispatch_fails_early (routes : List Route) (P : Params σ) (w : World σ) (req : Option Req)
+    (body : Bytes) (h : FailsEarly routes P w req body) :
+    (dispatch routes P w req body).1 = w := by
+  unfold FailsEarly at h
+  unfold dispatch protectedRegion
+  cases hres : resolve routes P req body with
+  | error e => rfl
+  | ok rc =>
+    obtain ⟨r, ctx⟩ := rc
+    simp only [hres] at h
+    cases hg : guardRefusal P r.guard w with
+    | none => simp [hg] at h
+    | some x => simp [runHandler, hg]
+
+/-- The repaired dispatch always returns a response: totality is by construction (it is a total
+    function into `World σ × Resp`); this lemma records the status it produces on early failures. -/
+theorem dispatch_resolve_error (routes : List Route) (P : Params σ) (w : World σ) (req : Option Req)
+    (body : Bytes) (e : Exn) (h : resolve routes P req body = .error e) :
+    dispatch routes P w req body = (w, finishResp {} (some e)) := by
+  unfold dispatch protectedRegion
+  simp [h]
+
 end Hap.Http
